@@ -358,17 +358,28 @@ func (ds *dataSet) FindAof(left int64) *dataSetAof {
 
 func (ds *dataSet) trimLastEmptyAof() {
 	ds.mux.Lock()
-	defer ds.mux.Unlock()
 
 	if len(ds.aofSegs) == 0 {
+		ds.mux.Unlock()
 		return
 	}
 
 	aofLast := len(ds.aofSegs) - 1
 	lastAof := ds.aofSegs[aofLast]
+	var orphans []*AofRotateReader
 	if lastAof.rtSize.Load() == 0 {
 		delete(ds.aofMap, lastAof.Left())
 		ds.aofSegs = ds.aofSegs[:aofLast]
+		lastAof.mux.Lock()
+		orphans = append(orphans, lastAof.readers...)
+		lastAof.mux.Unlock()
+	}
+	ds.mux.Unlock()
+
+	// the file of the trimmed segment is removed : a reader waiting on it would poll an orphaned
+	// descriptor for ever (a later writer creates a new file under the same name), so end it
+	for _, r := range orphans {
+		r.Close()
 	}
 }
 
